@@ -283,7 +283,7 @@ pub fn thermo_event(case: &str, m: &Model, eos: &Arc<Eos>, x: &[f64], with_path:
 pub fn run(args: &Args) {
     let mut tr = Tr::create(&args.out);
     let mut rng = Rng::new(args.seed);
-    let nstates = if args.thorough { 100 } else { 8 };
+    let nstates = if args.thorough { 100 } else { 16 };
     let mut models = zoo::zoo(args.thorough);
     let nzoo = models.len();
     // models built from shipped records, stratified by structural class (fewer states each)
